@@ -303,6 +303,7 @@ def run_sharded(case, prop_id):
         counters["collectives_logged"] += world.n_collectives()
         counters["group_creations_logged"] += sum(len(c) for c in world.creations.values())
         counters["set_interleavings"].append(f"{case['id']}:{world.interleaving_signature()}")
+        ledger_excerpt = world.excerpt()
         if world.errors:
             r = sorted(world.errors)[0]
             e = world.errors[r][0]
@@ -351,7 +352,7 @@ def run_sharded(case, prop_id):
     sig = [S["mode"], S["R"], S["S"], S["G"], S["comm"], S["communicate_params"], S["cut_kind"], midrow, empty, S["cfg"]["precond"]["kind"], (S["cfg"]["grafting"] or {}).get("type", "none"), S["presence_kind"], S["cfg"]["param_dtype"]]
     counters["cases_with_empty_shard"] = int(empty)
     counters["cases_with_uneven_cut"] = int(midrow)
-    return {"counters": counters, "sigs": [sig] if nontrivial else [], "sample": {k: desc[k] for k in ("mode", "R", "S", "G", "comm", "communicate_params", "shapes", "ranges", "cut_kind", "presence_kind", "T")}}
+    return {"counters": counters, "sigs": [sig] if nontrivial else [], "sample": dict({k: desc[k] for k in ("mode", "R", "S", "G", "comm", "communicate_params", "shapes", "ranges", "cut_kind", "presence_kind", "T")}, ledger=ledger_excerpt)}
 
 
 def run_case(case):
